@@ -11,7 +11,7 @@ LEAN_MODULES = ["AllfedModel.Props.C12"]
 OBLIGATIONS = ["Allfed.C12." + n for n in [
     "scale_feasible", "scale_optimum", "mono_storedInitial", "mono_cropProd", "mono_scp", "mono_cs", "mono_meat", "mono_constants",
     "charge_antitone_partial", "limits_needed_counterexample", "mono_wasteStored", "mono_wasteCrop", "mono_wasteSeaweed_partial",
-    "mono_wasteSeaweed_counterexample", "mono_scp_cs", "mono_scp_cs_constants", "mono_all_supplies"]]
+    "mono_wasteSeaweed_counterexample", "mono_scp_cs", "mono_scp_cs_constants", "mono_all_supplies", "mono_wastes"]]
 LEVEL_TEXT = ("Lean 4 theorems about the LP the code builds (human-maximising rounds, all inputs): scaling population and every supply by k>0 maps feasible points to feasible points "
               "with the same objective, both ways (equal optimum); for each supply (stock, monthly crops, SCP, sugar, meat total/caps, milk, fish, greenhouse) an explicit "
               "transformation of any feasible point of the smaller instance into a feasible point of the larger with objective >=, and the same for all of them raised at once (mono_all_supplies, by composition); lowering the feed/biofuel charge likewise without seaweed; lowering the retail waste of stored food or of crops likewise "
